@@ -41,8 +41,11 @@ ErrRec(path, class, name) == [path |-> path, class |-> class, name |-> name]
 VarVal(C, n) == IF n \in DOMAIN C.vars THEN C.vars[n] ELSE NullV
 CondVal(C, d) == IF d.v.k = "var" THEN VarVal(C, d.v.v) ELSE d.v
 HasDir(C, s, name, b) == \E i \in DOMAIN s.dirs : s.dirs[i].n = name /\ CondVal(C, s.dirs[i]) = BoolV(b)
-\* included iff no @skip(if: true) and no @include(if: false), whatever the order
-Included(C, s) == ~HasDir(C, s, "skip", TRUE) /\ ~HasDir(C, s, "include", FALSE)
+\* included iff no @skip(if: true) and no @include(if: false), whatever the order.  A condition that is no Boolean (a
+\* variable that is null: set so, or left out where there is no default) decides nothing: the selection is not made (the
+\* error that is due for it is not modelled: families with such conditions are judged on data and calls)
+CondsOK(C, s) == \A i \in DOMAIN s.dirs : s.dirs[i].n \in {"skip", "include"} => CondVal(C, s.dirs[i]).k = "bool"
+Included(C, s) == CondsOK(C, s) /\ ~HasDir(C, s, "skip", TRUE) /\ ~HasDir(C, s, "include", FALSE)
 
 -----------------------------------------------------------------------------
 (* CollectFields *)
